@@ -59,7 +59,12 @@ def run(ctx):
         ctx.violation({'check': 'C10', 'kind': 'process_died_or_stopped_serving', 'frame_type': k['frame_type']},
                       ('one stalled client (script %s, read timeout 400ms): %s' % (k['mode'], k['effect'])) if k['frame_type'] == 'STALL' else ('one client sending %s: %s' % (k['mode'], k['effect'])) if k['frame_type'] == 'SHOT' else ('ordinary clients only (%s): %s' % (k['mode'], k['effect'])) if k['frame_type'] == 'ORDINARY' else
                       'one HTTP/2 connection sending a %s frame (%d bytes, %s, open header block on %s): %s' % (k['frame_type'], k['len'], k['mode'], k['open_header_block_on'], k['effect']), k)
-    cov = {'traces_validated_against_impl': len([a for a in accepted if a.split('-')[0] in ('mix', 'iofault', 'leave')]) + npanic + abuse['connections'],
+    # the program as shipped (cmd/main.go -> Run()) as a child process: clients that go away before they read their answer
+    import realbin
+    rb = realbin.clients_going_away(ctx, realbin.build(ctx))
+    if rb['died']:
+        ctx.violation({'check': 'C10', 'kind': 'process_died_or_stopped_serving', 'via': 'real_binary'}, 'real binary: %s; log: %s' % (rb['died'], rb['log_tail'][-300:]), rb)
+    cov = {'real_binary_clients_going_away_rounds (FIN / RST / HTTP/2, answer never read)': rb['rounds'], 'traces_validated_against_impl': len([a for a in accepted if a.split('-')[0] in ('mix', 'iofault', 'leave')]) + npanic + abuse['connections'],
            'h2_frame_abuse': {k: abuse[k] for k in ('vectors_in_graph', 'connections', 'by_type', 'strata', 'outcomes', 'control_rounds', 'stall_scripts', 'one_shot_scripts', 'floods') if k in abuse},
            'samples': [{'panic_scenario': {k: v for k, v in s.items() if k != 'child_stderr_head'}} for s in report if s['family'] == 'panic'][:2] + [{'trace_prefix': lc.sample_trace(lines, 10)}],
            'panic_callbacks': [s['point'] for s in report if s['family'] == 'panic'],
